@@ -307,13 +307,13 @@ def run_corr(kind, seed, n, shards=None, compare_model=True, extra_env=None):
 
 
 def run_corpus(pid, kind, compare_model=True):
-    """minimised past failures / seeded witnesses: corpus/<pid>/<kind>*.txt, run first."""
+    """minimised past failures / seeded witnesses: corpus/<pid>/<kind>--<name>.txt, run first."""
     d = os.path.join(ROOT, "corpus", pid)
     tot = CorrResult()
     if not os.path.isdir(d):
         return tot
     for fn in sorted(os.listdir(d)):
-        if fn.startswith(kind) and fn.endswith(".txt"):
+        if fn.startswith(kind + "--") and fn.endswith(".txt"):
             lines = [l.rstrip("\n") for l in open(os.path.join(d, fn)) if l.strip() and not l.startswith("#")]
             tot.merge(corr_shard(kind, 0, 0, compare_model, None, lines))
     return tot
